@@ -233,11 +233,59 @@ class ZooSDE(torch.nn.Module):
         return self.G.unsqueeze(0) * (1.0 + 0.3 * torch.tanh(y).unsqueeze(-1)) + 0.02 * torch.sin(t)
 
 
-def make_sde(spec, dtype):
-    sde = ZooSDE(spec["kind"], spec["noise_type"], spec["sde_type"], spec["d"], spec["m"], DT[dtype], spec["seed"],
-                 spec.get("stiff", 1.0))
+class FusedZooSDE(ZooSDE):
+    """The same SDE declared with the optional fused methods the library prefers when they exist (`f_and_g`, `g_prod`):
+    other code paths through ForwardSDE and the solvers, same mathematics, same call counters and crash points."""
+
+    def f_and_g(self, t, y):
+        return self.f(t, y), self.g(t, y)
+
+    def g_prod(self, t, y, v):
+        g = self.g(t, y)
+        if self.noise_type == "diagonal":
+            return g * v
+        return (g @ v.unsqueeze(-1)).squeeze(-1)
+
+
+class RenamedZooSDE(torch.nn.Module):
+    """The same SDE with its methods under other names (`names=` argument of sdeint): no `f` / `g` / `h` attributes."""
+    NAMES = {"drift": "drift_fn", "diffusion": "diffusion_fn", "prior_drift": "prior_fn"}
+
+    def __init__(self, inner):
+        super().__init__()
+        self.inner = inner
+        self.noise_type, self.sde_type = inner.noise_type, inner.sde_type
+
+    def drift_fn(self, t, y):
+        return self.inner.f(t, y)
+
+    def diffusion_fn(self, t, y):
+        return self.inner.g(t, y)
+
+    def prior_fn(self, t, y):
+        return self.inner.h(t, y)
+
+    # call counters and crash points live on the inner object
+    n_f = property(lambda self: self.inner.n_f)
+    n_g = property(lambda self: self.inner.n_g)
+    crash_f = property(lambda self: self.inner.crash_f, lambda self, v: setattr(self.inner, "crash_f", v))
+    crash_g = property(lambda self: self.inner.crash_g, lambda self, v: setattr(self.inner, "crash_g", v))
+
+
+def make_sde(spec, dtype, allow_renamed=False):
+    """`spec["form"]`: plain | fused | renamed (the last only where the caller passes `names_of(sde)` on to sdeint)."""
+    form = spec.get("form", "plain")
+    cls = FusedZooSDE if form == "fused" else ZooSDE
+    sde = cls(spec["kind"], spec["noise_type"], spec["sde_type"], spec["d"], spec["m"], DT[dtype], spec["seed"],
+              spec.get("stiff", 1.0))
     sde.gquad = bool(spec.get("gquad"))
+    if form == "renamed" and allow_renamed:
+        return RenamedZooSDE(sde)
     return sde
+
+
+def names_of(sde):
+    return dict(RenamedZooSDE.NAMES) if isinstance(sde, RenamedZooSDE) else None
 
 
 def gen_sde_spec(rng, solver, stiff_choices=(1.0,)):
@@ -248,7 +296,9 @@ def gen_sde_spec(rng, solver, stiff_choices=(1.0,)):
             "d": d, "m": m, "seed": rng.randrange(1 << 30), "stiff": rng.choice(list(stiff_choices)),
             "batch": rng.choice([1, 2, 3]),
             # now and then: a diffusion with a critical point, started exactly there
-            "gquad": nt in ("diagonal", "scalar") and rng.random() < 0.08, "y0_zero": rng.random() < 0.08}
+            "gquad": nt in ("diagonal", "scalar") and rng.random() < 0.08, "y0_zero": rng.random() < 0.08,
+            # how the SDE is declared (round 3): plain f / g, with the optional fused methods, or under other method names
+            "form": rng.choice(["plain", "plain", "plain", "fused", "fused", "renamed"])}
 
 
 def make_y0(spec, dtype):
